@@ -104,6 +104,21 @@ def impl(case):
     out['edges'] = sorted([int(a), int(b)] for a, b in g.edges())
     out['nodes'] = sorted(int(x) for x in g.nodes())
     out['pdist2'] = (traj.get_lattice().get_all_distances(sites.frac_coords, sites.frac_coords) ** 2).tolist()
+    # rates: per label pair, mean and sample standard deviation over the time parts of (jumps of that pair in the part) / (atoms x part duration)
+    npart = 2
+    try:
+        df = j.rates(npart)
+        out['rates'] = {f'{a}>{b}': [float(r['rates']), float(r['std'])] for (a, b), r in df.iterrows()}
+        pc = []
+        for part in tr.split(npart):
+            c = Jumps(part, minimal_residence=case['mr']).counter()
+            pc.append({f'{a}>{b}': int(v) for (a, b), v in c.items()})
+        out['rates_parts'] = pc
+        out['total_time'] = float(traj.total_time)
+    except ValueError as e:
+        if 'No jumps found' not in str(e) and 'Not enough transitions' not in str(e):
+            raise
+        out['rates_skipped'] = str(e)[:60]
     out['inputs_changed'] = guard.changed()
     return out
 
@@ -179,6 +194,18 @@ def oracle(case, out):
         fs.append(('counter/label', 'counter() is not the per-label aggregation of the matrix'))
     if out['edges'] != sorted([a, b] for (a, b) in jc) or out['nodes'] != list(range(n)):
         fs.append(('graph/edges', 'jump graph edge set differs from the support of the matrix'))
+    if 'rates' in out:
+        na_ = len(case['outer'])
+        denom = na_ * out['total_time'] / len(out['rates_parts'])
+        labs = sorted({LABELS[k] for k in case['labels']})
+        if sorted(out['rates']) != sorted(f'{a}>{b}' for a in labs for b in labs):
+            fs.append(('rates/pairs', f'rates table rows {sorted(out["rates"])} are not all ordered pairs of the site labels {labs}'))
+        for key, (rate, std) in out['rates'].items():
+            counts = [pc.get(key, 0) for pc in out['rates_parts']]
+            wr, ws = float(np.mean(counts)) / denom, float(np.std(counts, ddof=1)) / denom
+            if abs(rate - wr) > 1e-9 * max(abs(wr), 1e-300) or abs(std - ws) > 1e-9 * max(abs(ws), abs(wr), 1e-300):
+                fs.append(('rates/aggregation', f'rate of {key}: {rate} +- {std}, but the parts hold {counts} such jumps: expected {wr} +- {ws}'))
+                break
     d2 = _d2(case)
     want = sum(d2[a][b] * c for (a, b), c in jc.items()) * _factor(case)
     if abs(out['diff'] - float(want)) > 1e-9 * abs(float(want)):
@@ -227,6 +254,8 @@ def classify(case, out):
         tags.append('events-with-nosite')
     if out.get('nojumps'):
         tags.append('no-jumps')
+    if 'rates' in out:
+        tags.append('rates-checked')
     return tags
 
 
